@@ -159,7 +159,7 @@ Definition compressed_bytes (e : elf) (sc : section) : list Z :=
   py_read (s_size (sc_sec sc) - Z.of_nat (chdr_size (e_is64 e)))
           (skipn (chdr_size (e_is64 e)) (s_stream (sc_sec sc))).
 
-Lemma inflate_declared blob p d : deflated inflate blob p -> 0 <= d -> d <> zlen p ->
+Lemma inflate_declared blob p d : deflated inflate blob p -> 0 <= d < 2 ^ 63 -> d <> zlen p ->
   exists result eof, inflate blob d = Some (result, eof) /\ (eof = false \/ zlen result <> d).
 Proof.
   intros [H0 Hn] Hd Hne. destruct (Z.eq_dec d 0) as [->|Hnz].
@@ -179,7 +179,7 @@ Proof.
   apply Z.eqb_neq in Hnb. rewrite Hnb, Hc, Ht, Z.eqb_refl.
   destruct (Z.leb_spec (2 ^ 63) (sc_dsize sc)); [lia|].
   fold (compressed_bytes e sc).
-  destruct (inflate_declared _ p (sc_dsize sc) Hd (proj1 Hr) Hne) as [result [eof [Hi Hbad]]].
+  destruct (inflate_declared _ p (sc_dsize sc) Hd Hr Hne) as [result [eof [Hi Hbad]]].
   rewrite Hi. destruct Hbad as [->|Hz]; [reflexivity|].
   destruct (true && negb eof); [reflexivity|].
   apply Z.eqb_neq in Hz. rewrite Hz. reflexivity.
@@ -189,7 +189,7 @@ Theorem spec_declared_size_mismatch_rejected le is64 s h t p :
   decode_layout (Spec.ElfGabi.spec_Elf_Chdr le is64) (s_stream s) = Some (h, t) ->
   is_nobits s = false -> rec_z h "ch_type" = ELFCOMPRESS_ZLIB ->
   deflated inflate (py_read (s_size s - Z.of_nat (chdr_size is64)) (skipn (chdr_size is64) (s_stream s))) p ->
-  0 <= rec_z h "ch_size" -> rec_z h "ch_size" <> zlen p ->
+  0 <= rec_z h "ch_size" < 2 ^ 63 -> rec_z h "ch_size" <> zlen p ->
   gabi_payload inflate le is64 s = None.
 Proof.
   intros Hdec Hnb Ht Hd H0 Hne. unfold gabi_payload. rewrite Hdec, Hnb, Ht, Z.eqb_refl.
@@ -215,5 +215,5 @@ Theorem declared_size_smaller_accepted_before_repair :
 Proof.
   split; [|split; [reflexivity|split; [reflexivity|split; reflexivity]]].
   split; [reflexivity|]. intros n Hn. unfold inflate_stored.
-  destruct (Z.eqb_spec n 0); [lia|]. reflexivity.
+  destruct (Z.eqb_spec n 0); [lia|]. destruct (Z.leb_spec (2 ^ 63) n); [lia|reflexivity].
 Qed.
